@@ -303,6 +303,12 @@ func genFlow(rng *rand.Rand, o *wireOpts, v Variant, c *sim.Call, fi int, actor 
 					}
 					r.Perturb = pick(rng, q...)
 					r.From = attackerAddr(v.V6, adv)
+					if chance(rng, 0.25) {
+						// the look-alike error comes from the target's own address (a host behind port
+						// forwarding, a middlebox answering in its name): who sends it does not make a quote of
+						// another flow a quote of this one
+						r.From = bareTarget(c.Target)
+					}
 				}
 				adv++
 				r.K = between(rng, 1, 9)
